@@ -10,8 +10,9 @@ namespace StrLex
 
 def isNl (c : Char) : Bool := c == '\n' || c == '\r'
 
-/-- what `\z` skips in `lex_string`: `' ' | '\t' | '\r' | '\n'` -/
-def isZws (c : Char) : Bool := c == ' ' || c == '\t' || c == '\r' || c == '\n'
+/-- what `\\z` skips in `lex_string`: `' ' | '\\t' | '\\r' | '\\n' | '\\x0B' | '\\x0C'` (C `isspace`) -/
+def isZws (c : Char) : Bool :=
+  c == ' ' || c == '\t' || c == '\r' || c == '\n' || c == '\x0B' || c == '\x0C'
 
 /-! ## Short strings -/
 
@@ -129,8 +130,8 @@ def isWhitespace (c : Char) : Bool :=
   (9 ≤ n && n ≤ 13) || n == 32 || n == 0x85 || n == 0xA0 || n == 0x1680 || (0x2000 ≤ n && n ≤ 0x200A) ||
   n == 0x2028 || n == 0x2029 || n == 0x202F || n == 0x205F || n == 0x3000
 
-/-- `char::from_u32(n).is_some()` -/
-def isScalar (n : Nat) : Bool := n < 0xD800 || (0xE000 ≤ n && n < 0x110000)
+/-- the `\\u{XXX}` values Lua can encode: below 2^31 (`code_point > 0x7FFF_FFFF` is the error test) -/
+def isEncodable (n : Nat) : Bool := n ≤ 0x7FFFFFFF
 
 /-- `u32::from_str_radix(s, 16)` succeeds: optional `+`, at least one hex digit, value below 2^32 -/
 def parseHexU32 (s : List Char) : Option Nat :=
@@ -163,7 +164,7 @@ def chk (delim : Char) : Nat → List Char → Bool
                let ds := r2.takeWhile (· != '}')
                let r3 := (r2.dropWhile (· != '}')).drop 1
                (match parseHexU32 ds with
-                | some cp => if isScalar cp then chk delim f r3 else true
+                | some cp => if isEncodable cp then chk delim f r3 else true
                 | none => chk delim f r3)
              else chk delim f r2)
         else if isDigit e then
